@@ -15,6 +15,8 @@ use std::collections::{BTreeMap, BTreeSet};
 use std::io::Cursor;
 
 struct Para {
+    /// authored breadcrumb root -> leaf (a heading of size s closes every open heading of size <= s)
+    path: Vec<String>,
     words: Vec<String>, // unique marker words, in order; lines of <= 8 words
     page: u32,          // 0-based page every word of this paragraph is on
     heading: Option<String>,
@@ -34,6 +36,7 @@ fn author(r: &mut Rng, c: u64) -> (Vec<u8>, Model) {
     let mut paras = Vec::new();
     let mut headings = Vec::new();
     let mut cur_heading: Option<String> = None;
+    let mut stack: Vec<(f64, String)> = Vec::new();
     let mut pid = 0usize;
     let with_headings = r.chance(3, 4);
     for pg in 0..npages {
@@ -41,7 +44,8 @@ fn author(r: &mut Rng, c: u64) -> (Vec<u8>, Model) {
         // body band: stay away from the top and bottom 8 % (header/footer candidates by design)
         let mut y = 760.0;
         let bottom = 90.0;
-        let nblocks = r.urange(1, 6);
+        // one page in six carries no text at all (a blank or image-only page)
+        let nblocks = if npages > 1 && r.chance(1, 6) { 0 } else { r.urange(1, 6) };
         for _ in 0..nblocks {
             if y < bottom + 120.0 {
                 break;
@@ -51,6 +55,8 @@ fn author(r: &mut Rng, c: u64) -> (Vec<u8>, Model) {
                 let size = *r.pick(&[24.0, 18.0, 16.0]);
                 page.text().set_font(Font::HelveticaBold, size).at(72.0, y).write(&h).ok();
                 headings.push((h.clone(), pg as u32));
+                stack.retain(|(sz, _)| *sz > size);
+                stack.push((size, h.clone()));
                 cur_heading = Some(h);
                 y -= size + 22.0;
             }
@@ -69,7 +75,7 @@ fn author(r: &mut Rng, c: u64) -> (Vec<u8>, Model) {
                 y -= 14.0;
             }
             if !words.is_empty() {
-                paras.push(Para { words, page: pg as u32, heading: cur_heading.clone(), kind });
+                paras.push(Para { path: stack.iter().map(|(_, t)| t.clone()).collect(), words, page: pg as u32, heading: cur_heading.clone(), kind });
                 pid += 1;
             }
             y -= 26.0; // paragraph gap
@@ -220,6 +226,15 @@ pub fn run(ctx: &Ctx, rec: &mut Recorder) -> Result<(), String> {
                             if !ok {
                                 rec.violation(format!("C15|{entry}|heading_context_is_not_the_governing_heading"), format!("chunk {ci}: heading_context {:?}, authored governing heading {:?}", ch.heading_context, want), replay(json!({"chunk": ci}), Some(&chunks)));
                                 break;
+                            }
+                            // the breadcrumb of a chunk that starts with body text is the authored path of that text
+                            if leading_heading.is_none() {
+                                let want_path = &model.paras[word_home[w.as_str()]].path;
+                                rec.count("heading_paths_compared");
+                                if &ch.metadata.heading_path != want_path {
+                                    rec.violation(format!("C15|{entry}|heading_path_is_not_the_authored_breadcrumb"), format!("chunk {ci}: heading_path {:?}, authored {:?}", ch.metadata.heading_path, want_path), replay(json!({"chunk": ci}), Some(&chunks)));
+                                    break;
+                                }
                             }
                         }
                     }
